@@ -7,8 +7,8 @@
     mode = full: the model compiles `pattern` / `flags` itself (Model/Compile)
   answer: id <TAB> answer   — same canonical form as the harness.
 -/
-import RxModel.Model.Api
-import RxModel.Generated.IcuCase
+import RxModel.Model.Compile
+import RxModel.Model.Unicode
 import Std.Data.HashMap
 namespace Rx.Driver
 open Rx
@@ -81,6 +81,40 @@ def parseProg (s : String) : Prog :=
 
 def lowerMap : Std.HashMap Nat Nat := Std.HashMap.ofList Rx.Gen.lowerTable
 def lowerFn (c : Nat) : Nat := lowerMap.getD c c
+def closureMap : Std.HashMap Nat (List Nat) := Std.HashMap.ofList Rx.Gen.closureTable
+def closureFn (c : Nat) : List Nat := closureMap.getD c []
+
+/-- `Env.std` with hash-map lookups for the two per-character tables (same functions) -/
+def envFast : Env := { Env.std with lower := lowerFn, closure := closureFn }
+
+partial def opS : Op → String
+  | .bol => "(bol)"
+  | .eol => "(eol)"
+  | .nothing => "(nothing)"
+  | .endProgram => "(end)"
+  | .atom cs => "(atom " ++ " ".intercalate (cs.map toString) ++ ")"
+  | .cls rs => "(cls " ++ " ".intercalate (rs.map fun r => s!"{r.1} {r.2}") ++ ")"
+  | .backref g => s!"(backref {g})"
+  | .capture g c => s!"(capture {g} {opS c})"
+  | .choice bs => "(choice " ++ " ".intercalate (bs.map opS) ++ ")"
+  | .seq ops => "(seq " ++ " ".intercalate (ops.map opS) ++ ")"
+  | .rep id c mn mx g => s!"(rep {id} {opS c} {mn} {mx} {if g then 1 else 0})"
+  | .gfixed c mn mx l => s!"(gfixed {opS c} {mn} {mx} {l})"
+  | .rfixed c mn mx l => s!"(rfixed {opS c} {mn} {mx} {l})"
+  | .unamb c mn mx => s!"(unamb {opS c} {mn} {mx})"
+
+/-- same text as `rxh … dump` prints for the implementation's program -/
+def progS (fl : Flags) (r : Regex) : String :=
+  let pr := r.prog
+  let f := (if fl.caseBlind then "i" else "") ++ (if fl.multiLine then "m" else "") ++ (if fl.singleLine then "s" else "") ++
+           (if fl.allowWs then "x" else "") ++ (if fl.literal then "q" else "")
+  let b (x : Bool) : String := if x then "1" else "0"
+  s!"(prog (flags {if f.isEmpty then "-" else f}) (xsd {b fl.xsd}) (nullable {b r.nullable}) (maxparens {pr.maxParens}) (hasbackrefs {b pr.hasBackrefs}) (hasbol {b pr.hasBol}) (minlen {pr.minLen})" ++
+  (match pr.prefix_ with | some cs => " (prefix " ++ " ".intercalate (cs.map toString) ++ ")" | none => "") ++
+  (match pr.icc with | some rs => " (icc " ++ " ".intercalate (rs.map fun r => s!"{r.1} {r.2}") ++ ")" | none => "") ++
+  String.join (pr.pres.map fun p => s!" (pre {opS p.op} {match p.fixed with | some f => toString f | none => "none"} {p.minPos})") ++
+  " (pattern " ++ " ".intercalate (pr.pattern.map toString) ++ ")" ++
+  s!" (op {opS pr.op}))"
 
 def uncps (s : String) : List Nat := (s.splitOn "," |>.filter (· ≠ "")).map String.toNat!
 def cps (l : List Nat) : String := ",".intercalate (l.map toString)
@@ -107,6 +141,28 @@ def fmtA : AEntry → String
   | .nonMatch s => "N:" ++ cps s
   | .isMatch es => "M(" ++ fmtM es ++ ")"
 
+def runRegex (r : Regex) (api : String) (input repl : List Nat) (limit : Nat) : String :=
+      match api with
+      | "compile" => "OK"
+      | "is_match" => showOut (fun b => if b then "T" else "F") (r.prog.isMatch lowerFn input)
+      | "replace" => showOut (fun s => "OK:" ++ cps s) (r.replaceAll lowerFn input repl)
+      | "tokenize" => showOut (fun (p : List (List Nat) × Bool) =>
+          s!"OK:{p.1.length}:" ++ "|".intercalate (p.1.map cps) ++ (if p.2 then "+MORE" else "")) (r.tokenize lowerFn input limit)
+      | "analyze" => showOut (fun (p : List AEntry × Bool) =>
+          s!"OK:{p.1.length}:" ++ ";".intercalate (p.1.map fmtA) ++ (if p.2 then "+MORE" else "")) (r.analyze lowerFn input limit)
+      | _ => "BADAPI"
+
+/-- the model compiles the pattern itself -/
+def runFull (dialect mode : String) (pattern flags : List Nat) (api : String) (input repl : List Nat) (limit : Nat) : String :=
+  match Regex.new envFast pattern flags (dialect == "xs") (mode != "noopt") with
+  | .err e => errName e
+  | .panic _ => "PANIC:compile"
+  | .diverge => "HANG"
+  | .ok r =>
+    if api == "dump" then
+      progS ((parseFlags flags (dialect == "xs")).getD {}) r
+    else runRegex r api input repl limit
+
 def runApi (pr : Prog) (api : String) (input repl : List Nat) (limit : Nat) : String :=
   match api with
   | "compile" => "OK"
@@ -128,10 +184,12 @@ def runApi (pr : Prog) (api : String) (input repl : List Nat) (limit : Nat) : St
 
 def handle (cache : String × Prog) (line : String) : String × (String × Prog) :=
   match line.splitOn "\t" with
-  | [id, mode, progS, _dialect, _pattern, _flags, api, input, repl, limit] =>
+  | [id, mode, progS, dialect, pattern, flags, api, input, repl, limit] =>
     if mode == "eng" then
       let pr := if progS == cache.1 then cache.2 else parseProg progS
       (s!"{id}\t{runApi pr api (uncps input) (uncps repl) limit.toNat!}", (progS, pr))
+    else if mode == "full" || mode == "fullnoopt" then
+      (s!"{id}\t{runFull dialect (if mode == "fullnoopt" then "noopt" else "opt") (uncps pattern) (uncps flags) api (uncps input) (uncps repl) limit.toNat!}", cache)
     else (s!"{id}\tBADMODE", cache)
   | _ => ("bad\tBADREQ", cache)
 
